@@ -169,6 +169,23 @@ def analyze_sfu(case, sm):
     return res
 
 
+def analyze_sfubad(case, sm):
+    """a locking read the executor cannot describe: refused, or consulted - never passed to the database un-consulted"""
+    tr = case["trace"]
+    st = U.step_at(tr, sm["path"])
+    out = []
+    passed = [e["db"]["sql"] for e in U.db_events(tr, st["seq_from"], st["seq_to"]) if e["src"] == "db"
+              and e["db"]["kind"] in ("QUERY", "STMT_QUERY", "EXEC") and "for update" in (e["db"].get("sql") or "").lower()]
+    asked = tc_events(tr, st["seq_from"], st["seq_to"], "GlobalLockQuery")
+    if st["class"] == "panic":
+        out.append("the locking read panicked instead of being refused")
+    if passed and not asked:
+        out.append("a FOR UPDATE statement reached the database inside a global transaction without the coordinator being asked: %s" % passed[0][:120])
+    if st["class"] == "ok" and not any(a["outcome"] == "ok" for a in asked):
+        out.append("a locking read returned inside a global transaction without a lockable answer from the coordinator")
+    return {"oracle": out, "pred": "", "texts": []}
+
+
 def analyze_tx(case):
     """one explicit local transaction of several statements: cover over the whole row diff, register text vs the images"""
     meta, tr = case["meta"], case["trace"]
@@ -223,10 +240,11 @@ def typed(c, kind):
 
 
 def row_texts(text):
-    """the row pieces of one 'T:r1,r2' text"""
+    """the row pieces of one 'T:r1,r2' text, each with its table prefix ('T:r1', 'T:r2')"""
     if ":" not in text:
         return []
-    return [x for x in text.rstrip(";").split(":", 1)[1].split(",") if x != ""]
+    t, rows = text.rstrip(";").split(":", 1)
+    return [t + ":" + x for x in rows.split(",") if x != ""]
 
 
 def analyze_iso(case):
@@ -305,7 +323,7 @@ def run(chk, only=None):
             continue
         key_texts = {}
         for si, sm in enumerate(c["meta"]["stmts"] or []):
-            r = analyze_sfu(c, sm) if sm["kind"] == "sfu" else analyze_dml(c, sm)
+            r = analyze_sfu(c, sm) if sm["kind"] == "sfu" else analyze_sfubad(c, sm) if sm["kind"] == "sfubad" else analyze_dml(c, sm)
             if not r["pred"]:
                 for k, t in r.get("texts") or []:
                     key_texts.setdefault(k, set()).add(t)
